@@ -1848,6 +1848,9 @@ def sym_hash(x: Any) -> int:
   """
   if isinstance(x, Symbolic):
     return x.sym_hash()
+  if isinstance(x, tuple):
+    # Elements are hashed symbolically, as `pg.eq` compares them symbolically.
+    return hash(tuple([sym_hash(v) for v in x]))
   if inspect.isfunction(x):
     return hash(x.__code__.co_code)
   if inspect.ismethod(x):
